@@ -36,7 +36,7 @@ func runProp(prop string) func(Case) ev.Outcome {
 	return func(c Case) ev.Outcome {
 		exs, err := execute(c)
 		if err != nil {
-			return ev.Outcome{Excluded: "fixture_error: " + err.Error(), Overloaded: true}
+			return ev.Outcome{Excluded: "fixture_error", Overloaded: true, History: err.Error()}
 		}
 		var out ev.Outcome
 		for i, ex := range exs {
